@@ -2,8 +2,9 @@ SPECIFICATION Spec
 CONSTANTS
   MaxDgrams = 3
   Senders = {"s1"}
-  SpawnPerEvent = TRUE
-  DropWhenBusy = FALSE
+  SpawnPerEvent = FALSE
+  DropWhenBusy = TRUE
   DoneOnClose = FALSE
-INVARIANT EventsInOrderOnce
+INVARIANT ErrorsInOrderOnce
+INVARIANT Complete
 CHECK_DEADLOCK FALSE
